@@ -139,9 +139,9 @@ class Canon:
     def e(self, e, types=True):
         t = f":{self.ty(e.type)}" if (types and self.types) else ""
         if not self.types and isinstance(e, LoopIR.USub) and isinstance(e.arg, LoopIR.Const):
-            return f"C({-e.arg.val!r})"
+            return f"C({float(-e.arg.val) + 0.0!r})"
         if not self.types and isinstance(e, LoopIR.Const) and isinstance(e.val, (int, float)) and not isinstance(e.val, bool):
-            return f"C({float(e.val)!r})"
+            return f"C({float(e.val) + 0.0!r})"
         if isinstance(e, LoopIR.Read):
             return f"R({self.sym(e.name)};{','.join(self.e(i) for i in e.idx)}){t}"
         if isinstance(e, LoopIR.Const):
